@@ -88,6 +88,8 @@ pub fn run(ctx: &Ctx) -> Outcome {
                     // block at the start, then a forward set_block_pos  (1..3 for the in-place form only)
                     for (how, reach) in [(0, 0), (1, 0), (2, 0), (0, 1), (0, 2), (0, 3)] {
                         rep.case(|| {
+                            // the cipher-call log covers the whole life of the object, reach phase included
+                            toy::log_start();
                             let mut core = rec::core(cfg, d, key, iv);
                             match reach {
                                 1 => {
@@ -112,7 +114,6 @@ pub fn run(ctx: &Ctx) -> Outcome {
                                 }
                                 _ => ensure!(core.set_block_pos(s), "MACHINERY", "harness: block position does not fit"),
                             }
-                            toy::log_start();
                             let mut out = match how {
                                 0 => data[..m * bs].to_vec(),
                                 _ => dirty(m * bs),
@@ -131,14 +132,13 @@ pub fn run(ctx: &Ctx) -> Outcome {
                             }
                             let log = toy::log_take();
                             if cfg.is_toy() {
-                                // the expected counter blocks must occur in order among the blocks the cipher received
-                                // (extra cipher calls are not a violation of the layout and are only counted)
+                                // every expected counter block must have been fed to the cipher at some point of the object's life
+                                // (extra cipher calls, and blocks served from memory when needed again, are the implementation's business)
                                 let got: Vec<Vec<u8>> = log.iter().filter(|l| l.dir == b'E').map(|l| l.input.clone()).collect();
-                                match match_subsequence(&got, &want_ctr) {
-                                    Ok(extra) => extra_calls.set(extra_calls.get() + extra as u64),
-                                    Err(j) => {
-                                        let shown = got.get(j).map(|b| short(b)).unwrap_or_else(|| "nothing".into());
-                                        return fail(format!("counter_block_wrong/{}", d.mode), format!("{} iv={} (field {}): the block fed to E for keystream block {} is {} want {} (reached by positioning at {} and generating {} blocks in one call)", d.ty, short(iv), ivn, s + j as u128, shown, short(&want_ctr[j]), s, m));
+                                match first_missing(&got, &want_ctr) {
+                                    None => extra_calls.set(extra_calls.get() + got.len().saturating_sub(want_ctr.len()) as u64),
+                                    Some(j) => {
+                                        return fail(format!("counter_block_wrong/{}", d.mode), format!("{} iv={} (field {}): the counter block {} of keystream block {} was never fed to E; E received [{}] (reached by positioning at {} and generating {} blocks in one call)", d.ty, short(iv), ivn, short(&want_ctr[j]), s + j as u128, got.iter().rev().take(4).map(|b| short(b)).collect::<Vec<_>>().join(" "), s, m));
                                     }
                                 }
                             }
